@@ -2,11 +2,13 @@
 """import_seeded.py <PID> <mK> <json meta>  - copy a confirmed third-party change into /verif/seeded/<PID>-<mK>/"""
 import json, os, shutil, sys, glob
 pid, mk, meta = sys.argv[1], sys.argv[2], json.loads(sys.argv[3])
-src = "/tmp/wtout/%s/%s" % (pid, mk)
-dst = "/verif/seeded/%s-%s" % (pid, mk)
+import os as _os
+src = "%s/%s/%s" % (_os.environ.get("WTOUT", "/tmp/wtout"), pid, mk)
+name = _os.environ.get("SEED_NAME", mk)
+dst = "/verif/seeded/%s-%s" % (pid, name)
 os.makedirs(dst, exist_ok=True)
 for f in glob.glob(src + "/*"):
     shutil.copy2(f, dst)
-meta = dict({"id": "%s-%s" % (pid, mk), "origin": "written by an independent sub-agent that saw only the property text and a scratch worktree of /repo (nothing from /verif)", "breaks": [pid]}, **meta)
+meta = dict({"id": "%s-%s" % (pid, name), "origin": "written by an independent sub-agent that saw only the property text and a scratch worktree of /repo (nothing from /verif)", "breaks": [pid]}, **meta)
 json.dump(meta, open(dst + "/meta.json", "w"), indent=1)
 print("imported", dst, sorted(os.listdir(dst)))
